@@ -1,7 +1,7 @@
 (* C03 — A successfully loaded module is structurally well-formed. *)
 From Coq Require Import ZArith List Lia Bool.
 Import ListNotations.
-From LX Require Import Base.ListAux Generated.Consts Model.ModuleWf Model.Gate Proofs.GateProofs Model.SeqScan Proofs.SeqScanProofs.
+From LX Require Import Base.ListAux Generated.Consts Model.ModuleWf Model.Gate Proofs.GateProofs Model.SeqScan Proofs.SeqScanProofs Model.ModLoad Proofs.ModLoadProofs.
 Local Open Scope Z_scope.
 
 (* Whatever a loader leaves behind (arbitrary integers in every field), if the sanity gate, the epilogue and
@@ -105,3 +105,21 @@ Example c03_seq_nonvacuous :
   | None => False
   end.
 Proof. vm_compute. repeat split; reflexivity. Qed.
+
+(* ---------------------------------------------------------------- one loader followed all the way ---------------------- *)
+
+(* The loader post-condition is a hypothesis of the gate theorem; for the Protracker loader it is a theorem: for EVERY byte string
+   with the M.K. signature that mod_load accepts - any header fields, complete, truncated anywhere after the patterns, with trailing
+   bytes, a Mod's Grave .WOW, a song file without sample data - what it hands to load_module (Model/ModLoad.v: counts, order list,
+   pattern / track / instrument tables, and for every sample what libxmp_load_sample made of the data really present) satisfies
+   loader_postb ... *)
+Theorem mod_loader_establishes_post : forall ptk file r,
+  Forall (fun b => 0 <= b <= 255) file -> mod_raw ptk file = Some r -> loader_postb r = true.
+Proof. exact ModLoadProofs.mod_loader_establishes_post. Qed.
+Print Assumptions mod_loader_establishes_post.
+
+(* ... so that, for this loader, whatever gets through the gate is well-formed without any assumption about the loader *)
+Theorem protracker_module_is_wf : forall ptk file r m,
+  Forall (fun b => 0 <= b <= 255) file -> mod_raw ptk file = Some r -> finish r = Some m -> wf_noseq m = true.
+Proof. exact mod_loaded_module_is_wf. Qed.
+Print Assumptions protracker_module_is_wf.
